@@ -10,7 +10,19 @@ Case classes (a replay case is [class, index]; every case has its own PRNG deriv
   bad   valid URI damaged into one of the stated rejection classes -> oracle (d)
   arb   arbitrary strings / token soup / mutated URIs             -> oracle (d) totality
   hp    host, port pairs                    -> oracle (e)
+  junk  authority with arbitrary text around a bracketed literal  -> oracle (d) + (e) on the host:port string
+  ws    valid URI with raw TAB / CR / LF / other C0 controls / SPACE / DEL inserted anywhere  -> oracle (d)
   fixed hand-written witnesses (RFC examples, repository test URIs, one per known mechanism)
+
+Input groups with mechanism key families of their own (each has a g* monitor counter):
+  compose/bracketed-non-literal-host/...   Uri-Host values (host kind "name-soup", option sets flagged "host-soup") over an
+      alphabet with brackets and the other gen-delims at any position: a value that begins with "[" and ends with "]"
+      without being an IP literal has to be composed percent-encoded like any other reg-name data
+  decompose/pct-encoded-dot-segment/...    dot segments with any subset of their dots written %2e / %2E, at any place of the path:
+      they are dot segments (RFC 3986 2.3, 6.2.2.2, 6.2.2.3), not Uri-Path values "." / ".." and not named segments
+  accept/junk-around-ip-literal/...        "[::1]junk:5684", "junk[::1]", "[::1]]": not host[:port] (RFC 3986 3.2.2); accepted
+      with the extra text dropped (uri/...) or split by hostportsplit into something that joins to another string (hostportsplit/...)
+  accept/whitespace-or-control-dropped/... text with raw controls / spaces (not a URI) accepted and decomposed as if they were not there
 """
 
 import random
@@ -18,23 +30,28 @@ import traceback
 
 ID = "C16"
 LEVEL = "exploration"
-TECHNIQUE = "differential runtime monitoring: the real Message.set_request_uri / get_request_uri / UndecidedRemote / hostportsplit / hostportjoin driven with generated URIs, option sets, damaged URIs and arbitrary strings, judged by an independent RFC 3986 + RFC 7252 section 6.4/6.5 reference (harness/refuri.py)"
-LEVEL_TEXT = "Held on every generated case: ~3e5 (quick) / ~1.2e7 (thorough) URIs, option sets, damaged URIs, arbitrary strings and host/port pairs over 6 schemes in mixed case, names / escaped names / IPv4 / IPv4 look-alikes / IPv6 in all text forms / zone ids / IPvFuture, all port classes, path and query segments over the whole Unicode range incl. reserved characters and empty segments; says nothing about inputs outside the generators' classes."
-LEVEL_NOTE = "Trusted: harness/refuri.py (self-tested each run on the RFC 7252 6.3 / Appendix B and RFC 3986 examples). Judged leniently on purpose: order of lower-casing vs percent-decoding of the host, where the port is stored, explicit default ports, 'coap://h/?' ([] or ['']), IPv4 text with leading zeros, text with raw non-ASCII characters (IRI), incomplete % sequences, ports > 65535."
+TECHNIQUE = "differential runtime monitoring: the real Message.set_request_uri / get_request_uri / UndecidedRemote / hostportsplit / hostportjoin driven with generated URIs, option sets, damaged URIs, arbitrary strings, authorities with text around bracketed literals and URIs with raw control / space characters inserted, judged by an independent RFC 3986 + RFC 6874 + RFC 7252 section 6.4/6.5 reference (harness/refuri.py)"
+LEVEL_TEXT = "Held on every generated case: ~3.9e5 (quick) / ~1.6e7 (thorough) URIs, option sets, damaged URIs, arbitrary strings and host/port pairs over 6 schemes in mixed case, names / escaped names / escaped names whose decoded value has brackets and other gen-delims at any position incl. first and last / IPv4 / IPv4 look-alikes / IPv6 in all text forms / zone ids / IPvFuture, all port classes, path and query segments over the whole Unicode range incl. reserved characters and empty segments, dot segments with any subset of their dots percent-encoded (either hex case) as first / middle / last segment, authorities with arbitrary text before / behind a bracketed literal (also through hostportsplit), raw TAB / CR / LF / other C0 controls / SPACE / DEL at arbitrary positions of a URI; says nothing about inputs outside the generators' classes."
+LEVEL_NOTE = "Trusted: harness/refuri.py (self-tested each run on the RFC 7252 6.3 / Appendix B and RFC 3986 examples). Judged leniently on purpose: order of lower-casing vs percent-decoding of the host, where the port is stored, explicit default ports, 'coap://h/?' ([] or ['']), IPv4 text with leading zeros, text with raw non-ASCII characters (IRI), incomplete % sequences, ports > 65535; a URI with percent-encoded dot segments may also be refused with a URL error; text with raw controls / spaces (not a URI: rejection is what is demanded) may be accepted if every such character is kept as data exactly as its percent-encoding would be -- only its silent removal is reported; an escaped reg-name whose decoded value is a complete IP literal ('%5B%3A%3A1%5D') or IPv4 address is not judged, nor is a Uri-Host option holding such a value (RFC 7252 6.5 step 3 composes it as that literal); a string with text around brackets that hostportsplit splits so that hostportjoin restores it is tolerated."
 RULE = (
     "cases are (a/b) generated valid URIs decomposed by Message(uri=...) and recomposed by get_request_uri(), (c) option sets built on a "
     "Message with an UndecidedRemote, composed, decomposed again and compared, plus a structurally neighbouring twin that must not compose to the "
-    "same URI, (d) URIs damaged into a stated rejection class and arbitrary strings, (e) host/port pairs through hostportjoin/hostportsplit. "
+    "same URI, (d) URIs damaged into a stated rejection class, arbitrary strings, authorities with text around a bracketed literal and URIs with raw "
+    "control / space characters inserted (accepted text must account for every character: what was dropped makes a violation), (e) host/port pairs "
+    "through hostportjoin/hostportsplit and the bracket-with-text strings through hostportsplit (ValueError or a split that joins back to the string). "
+    "A URI with percent-encoded dot segments must decompose like the equivalent one with literal dots (or be refused) and never to Uri-Path values '.' / '..'. "
     "A case is non-trivial unless it is a bare scheme://name[/] URI; distinct = distinct (class, scheme, host kind, port class, number of path "
-    "and query segments, character classes present in path / query / host, outcome) signatures"
+    "and query segments, character classes present in path / query / host, kind and place of dot segments / bracket text / raw controls, outcome) signatures"
 )
 ASSUMPTIONS = [
-    "harness/refuri.py is a correct reading of RFC 3986 section 3 / 5.2.4 / 6.2.2, RFC 6874 and RFC 7252 sections 6.1-6.5 (self-tested on the RFC examples each run)",
+    "harness/refuri.py is a correct reading of RFC 3986 section 2 / 3 / 5.2.4 / 6.2.2, RFC 6874 and RFC 7252 sections 6.1-6.5 (self-tested on the RFC examples each run)",
     "'degenerate' option lists are exactly Uri-Path == [''] and Uri-Query == ['']; Uri-Path values '.' and '..' are outside the option domain (RFC 7252 5.10.1) and not generated as options",
-    "Uri-Host option values in generated option sets are lower-case, non-empty and do not look like IP literals (what 6.4 can produce)",
+    "Uri-Host option values in generated option sets are lower-case and non-empty; values that are a complete IP literal or IPv4 address are outside the judged domain (anything else, brackets included, is reg-name data that 6.4 can produce from a percent-encoded reg-name)",
+    "a percent-encoded dot segment is equivalent to the literal one (RFC 3986 2.3: '.' is unreserved) and is removed like it (6.2.2.3)",
+    "raw C0 controls, SPACE and DEL are not URI characters anywhere in a URI (RFC 3986 section 2 / Appendix A); square brackets occur only as the delimiters of an IP literal that is the whole host (3.2.2)",
     "URI text is str without lone surrogates; the URL errors are aiocoap.error.MalformedUrlError and IncompleteUrlError",
 ]
-REQUIRED_MONITORS = {
+_BASE_MONITORS = {
     "a_decomposition": 2000,
     "b_recomposed_ref": 2000,
     "b_recomposed_self": 2000,
@@ -45,6 +62,13 @@ REQUIRED_MONITORS = {
     "d_totality": 1000,
     "e_hostport": 1000,
 }
+# g1: a Uri-Host that begins with "[" and ends with "]" without being an IP literal was composed and judged (from a URI / as an option set);
+# g2: a URI with a percent-encoded dot segment was decomposed and judged; g3: text around a bracketed literal / raw controls or spaces
+# went through set_request_uri resp. hostportsplit and the outcome was judged
+REQUIRED_MONITORS = {
+    "quick": dict(_BASE_MONITORS, g1_bracketed_host_uri=700, g1_bracketed_host_options=400, g2_escaped_dot_segment=1500, g3_junk_around_literal_uri=8000, g3_junk_around_literal_hostportsplit=8000, g3_control_or_space_uri=15000),
+    "thorough": dict(_BASE_MONITORS, g1_bracketed_host_uri=28000, g1_bracketed_host_options=16000, g2_escaped_dot_segment=60000, g3_junk_around_literal_uri=320000, g3_junk_around_literal_hostportsplit=320000, g3_control_or_space_uri=600000),
+}
 EXHAUSTIVE = {"fixed_witnesses": "every entry of FIXED (RFC 7252 6.3 / Appendix B examples, the repository's test URIs, one witness per known mechanism) in every run"}
 
 # "coap://h/a#" (fragment delimiter, empty fragment) and "coap://@h/" (userinfo delimiter, empty userinfo) do have a
@@ -54,10 +78,10 @@ EXHAUSTIVE = {"fixed_witnesses": "every entry of FIXED (RFC 7252 6.3 / Appendix 
 STRICT_EMPTY_COMPONENTS = True
 
 SCHEMES = ["coap", "coaps", "coap+tcp", "coaps+tcp", "coap+ws", "coaps+ws"]
-CLASSES = {"uri": 0, "opt": 1, "bad": 2, "arb": 3, "hp": 4, "fixed": 5}
+CLASSES = {"uri": 0, "opt": 1, "bad": 2, "arb": 3, "hp": 4, "fixed": 5, "junk": 6, "ws": 7}
 PER_SHARD = {
-    "quick": {"uri": 7000, "opt": 3500, "bad": 2500, "arb": 4000, "hp": 2000},
-    "thorough": {"uri": 280000, "opt": 140000, "bad": 100000, "arb": 160000, "hp": 80000},
+    "quick": {"uri": 7000, "opt": 3500, "bad": 2500, "arb": 4000, "hp": 2000, "junk": 1500, "ws": 2500},
+    "thorough": {"uri": 280000, "opt": 140000, "bad": 100000, "arb": 160000, "hp": 80000, "junk": 60000, "ws": 100000},
 }
 
 
@@ -213,7 +237,36 @@ def gen_zone(r):
     return "".join(r.choice("ethwlan0123456789ETH-._~") for _ in range(r.choice([1, 2, 4, 6])))
 
 
-HOST_KINDS = [("name", 30), ("name-pct", 16), ("name-reserved", 4), ("ipv4", 12), ("lookalike", 5), ("ipv6", 16), ("ipv6-zone", 7), ("ipvfuture", 1), ("iri-host", 2)]
+# Decoded host values over an alphabet in which the gen-delims -- brackets above all -- occur at any position including the
+# first and the last: everything a reg-name can carry percent-encoded and therefore everything a Uri-Host option can hold.
+HOST_SOUP = ["[", "]", "[", "]", "/", "?", "#", "@", ":", "::", "::1", "::2", "1", "x", "a", "b=", "fe80", ".", "-", "%", "25", "eth0", "v1.", "=", "&", "ä"]
+
+
+def gen_host_soup(r):
+    """-> non-empty lower-case decoded host value; brackets anywhere, with a bias towards the first and last position.
+    (Values that are complete IP literals or IPv4 addresses do occur; the oracles set them aside as ambiguous.)"""
+    while True:
+        toks = []
+        for _ in range(r.choice([0, 1, 1, 2, 2, 3, 4, 6])):
+            k = r.random()
+            if k < 0.80:
+                toks.append(r.choice(HOST_SOUP))
+            elif k < 0.90:
+                toks.append(gen_ipv6_text(r).lower())
+            elif k < 0.95:
+                toks.append("[" + gen_ipv6_text(r).lower() + "]")
+            else:
+                toks.append(gen_name_value(r))
+        v = "".join(toks)
+        if r.random() < 0.45:
+            v = "[" + v
+        if r.random() < 0.45:
+            v = v + "]"
+        if v:
+            return v
+
+
+HOST_KINDS = [("name", 30), ("name-pct", 16), ("name-reserved", 4), ("name-soup", 7), ("ipv4", 12), ("lookalike", 5), ("ipv6", 16), ("ipv6-zone", 7), ("ipvfuture", 1), ("iri-host", 2)]
 HK_NAMES = [k for k, w in HOST_KINDS for _ in range(w)]
 
 
@@ -232,6 +285,13 @@ def gen_host(r, kind):
         k = r.randrange(len(v) + 1)
         c = r.choice(HOST_RESERVED_ESCAPES)
         return v[:k] + hexbyte(r, ord(c), r.randrange(3)) + v[k:]
+    if kind == "name-soup":
+        from harness import refuri as ref
+
+        v = gen_host_soup(r)
+        if r.random() < 0.25:
+            v = mixcase(r, v)
+        return enc(r, v, ref.REGNAME, p_literal=0.85)
     if kind == "ipv4":
         return gen_ipv4(r)
     if kind == "lookalike":
@@ -271,6 +331,11 @@ def gen_port(r, kind, scheme):
     return ":" + "0" * r.randrange(1, 4) + str(r.choice([ref.DEFAULT_PORT[scheme], 80, 1, 0, 65535, r.randrange(65536)]))
 
 
+def gen_dot_segment(r, p_escape):
+    """"." or ".." with every dot independently written ".", "%2e" or "%2E"."""
+    return "".join(r.choice(["%2e", "%2E"]) if r.random() < p_escape else "." for _ in range(r.choice([1, 2, 2, 1])))
+
+
 def gen_uri(r, hk=None, plain=False):
     """-> (text, meta). meta carries the structural description used for signatures."""
     from harness import refuri as ref
@@ -291,12 +356,16 @@ def gen_uri(r, hk=None, plain=False):
     else:
         segs = [gen_segment(r) for _ in range(r.choice([1, 1, 2, 2, 3, 5]))]
         path = "".join("/" + enc(r, s, ref.PCHAR, iri) for s in segs)
-    dots = False
-    if not plain and r.random() < 0.04:
+    dots = edots = False
+    if not plain and r.random() < 0.08:
+        # dot segments as first / middle / last segment, alone or behind other segments; any subset of their dots escaped
         dots = True
         pieces = path.split("/")[1:] if path else []
-        for _ in range(r.choice([1, 1, 2])):
-            pieces.insert(r.randrange(len(pieces) + 1), r.choice([".", "..", "..", "."]))
+        p_escape = r.choice([0.0, 0.0, 0.5, 0.5, 1.0])
+        for _ in range(r.choice([1, 1, 2, 3])):
+            d = gen_dot_segment(r, p_escape)
+            edots = edots or "%" in d
+            pieces.insert(r.randrange(len(pieces) + 1), d)
         path = "".join("/" + p for p in pieces)
     qstyle = r.random()
     if qstyle < 0.45:
@@ -307,7 +376,7 @@ def gen_uri(r, hk=None, plain=False):
         args = [gen_segment(r) for _ in range(r.choice([1, 1, 2, 3]))]
         query = "?" + "&".join(enc(r, a, qsafe, iri) for a in args)
     text = stext + "://" + host + port + path + query
-    meta = {"scheme": scheme, "hk": hk, "pk": pk, "npath": len(segs), "nquery": len(args), "iri": any(ord(c) >= 0x80 for c in text), "dots": dots, "pc": textsig("".join(segs)) + ("e" if "" in segs else ""), "qc": textsig("".join(args)) + ("e" if "" in args else ""), "mixed_scheme": stext != scheme}
+    meta = {"scheme": scheme, "hk": hk, "pk": pk, "npath": len(segs), "nquery": len(args), "iri": any(ord(c) >= 0x80 for c in text), "dots": dots + edots, "pc": textsig("".join(segs)) + ("e" if "" in segs else ""), "qc": textsig("".join(args)) + ("e" if "" in args else ""), "mixed_scheme": stext != scheme}
     return text, meta
 
 
@@ -384,6 +453,13 @@ def gen_opt_host(r, flags):
         j = r.randrange(len(v) + 1)
         v = v[:j] + r.choice(HOST_RESERVED_ESCAPES) + v[j:]
         flags.add("host-reserved")
+    elif k < 0.40:
+        from harness import refuri as ref
+
+        v = gen_host_soup(r)
+        flags.add("host-soup")
+        if ref.bracketed_non_literal(v):
+            flags.add("host-bracketed")
     return v
 
 
@@ -414,6 +490,12 @@ def in_domain(o):
         return False
     if o["uri_host"] == "":
         return False
+    if o["uri_host"] is not None:
+        from harness import refuri as ref
+
+        # a value that is a complete IP literal / IPv4 address is what RFC 7252 6.5 step 3 composes as that literal: not a name
+        if ref.is_ip_literal_text(o["uri_host"]) or ref.parse_ipv4(o["uri_host"]) is not None:
+            return False
     return True
 
 
@@ -570,7 +652,7 @@ def gen_bad(r):
     return cls, out, hk
 
 
-TOKENS = ["coap", "coaps", "coap+tcp", "COAP", "http", "urn", "://", ":", "//", "/", "?", "#", "@", "[", "]", "%", "%2", "%zz", "%FF", "%2F", "%25", "&", "=", "::1", "::", "v1.", "fe80::1%25eth0", ".", "..", "1", "256", "5683", "65536", "1.2.3.4", "a", "h", "example.com", "ä", " ", "\t", "\n", "\x00", "\\", ";", "+", "-", "~", "\U0001f600", "／", "℀", "︓"]
+TOKENS = ["coap", "coaps", "coap+tcp", "COAP", "http", "urn", "://", ":", "//", "/", "?", "#", "@", "[", "]", "%", "%2", "%zz", "%FF", "%2F", "%25", "%2e", "%2E", "%5B", "%5D", "&", "=", "::1", "::", "v1.", "fe80::1%25eth0", ".", "..", "1", "256", "5683", "65536", "1.2.3.4", "a", "h", "example.com", "ä", " ", "\t", "\n", "\x00", "\\", ";", "+", "-", "~", "\U0001f600", "／", "℀", "︓"]
 
 
 def gen_arbitrary(r):
@@ -626,6 +708,69 @@ def gen_hostport(r):
     return kind, h, p
 
 
+# -- text around bracketed literals; raw controls / spaces ----------------------------------------------------
+
+JUNK_CH = LABELCH + "ABX" + "[]:@%.!$&'()*+,;=" + "ä"
+JUNK_WORDS = ["]", "[", "]]", "[[", "x", "junk", ".", "a.b", "-", "1", "80", "%41", "%5D", "@", "u@", "::1", "[::2]", ":", "::", "ä", "X"]
+
+
+def gen_junk_text(r):
+    if r.random() < 0.4:
+        return r.choice(JUNK_WORDS)
+    return "".join(r.choice(JUNK_CH) for _ in range(r.choice([1, 1, 2, 3, 5])))
+
+
+def gen_junk_hostport(r):
+    """-> host[:port] text in which a bracketed part has arbitrary text before and / or behind it
+    ("[::1]junk:5684", "junk[::1]", "[::1]]", "[fe80::1%25eth0]x:1", "a.b[v1.x]", ...)."""
+    k = r.random()
+    if k < 0.55:
+        inner = gen_ipv6_text(r)
+    elif k < 0.70:
+        inner = gen_ipv6_text(r) + "%25" + gen_zone(r)
+    elif k < 0.80:
+        inner = gen_ipv6_text(r) + "%" + gen_zone(r)
+    elif k < 0.86:
+        inner = r.choice(["v1.fe", "vF.a:b", "V7.x"])
+    else:
+        inner = r.choice(["x", "", "1.2.3.4", "::1::", "h.example", ":"])
+    where = r.choice(["after", "after", "before", "both"])
+    before = gen_junk_text(r) if where in ("before", "both") else ""
+    after = gen_junk_text(r) if where in ("after", "both") else ""
+    port = r.choice(["", "", ":5684", ":%d" % r.randrange(65536), ":", ":0"])
+    return before + "[" + inner + "]" + after + port
+
+
+def gen_junk_uri(r):
+    from harness import refuri as ref
+
+    while True:
+        hp = gen_junk_hostport(r)
+        if any(c in hp for c in "/?#"):
+            continue
+        text, meta = gen_uri(r, hk="ipv4", plain=True)
+        scheme, authority, path, query, _ = ref.split_components(text)
+        u = scheme + "://" + hp + path + ("" if query is None else "?" + query)
+        if ref.classify(u)[0] != "ok" and not ref.hostinfo_wellformed(hp.rpartition("@")[2]):
+            return hp, u
+
+
+WS_COMMON = ["\t", "\n", "\r", "\t", "\n", "\r", "\r\n", " ", " ", "\x00", "\x0b", "\x0c", "\x1f", "\x7f", "\x01", "\x1b"]
+
+
+def gen_ws_uri(r):
+    """-> (base, text): a valid CoAP URI and the same with raw TAB / CR / LF / other C0 controls / SPACE / DEL inserted at
+    arbitrary positions (leading, trailing, inside the scheme, the delimiters, host, port, escapes, path, query)."""
+    base, meta = gen_uri(r, hk=r.choice(["name", "name", "name-pct", "ipv4", "ipv6", "ipv6-zone"]), plain=True)
+    text = base
+    for _ in range(r.choice([1, 1, 1, 2, 3])):
+        c = r.choice(WS_COMMON) if r.random() < 0.85 else chr(r.randrange(0x21))
+        k = r.random()
+        pos = 0 if k < 0.2 else (len(text) if k < 0.28 else r.randrange(len(text) + 1))
+        text = text[:pos] + c + text[pos:]
+    return base, text
+
+
 # ---- fixed witnesses -------------------------------------------------------------------------------
 FIXED = [
     # RFC 7252 6.3, Appendix B
@@ -670,6 +815,33 @@ FIXED = [
     ("hp", "fe80::1%eth0", 56830),
     ("hp", "example.com", None),
     ("hp", "2001:db8::1", 0),
+    # bracketed host values that are no IP literal; escaped dot segments; text around literals; raw controls and spaces
+    ("uri", "coap://%5B%3A%3A1%5D%2Fa%3Fb=%5D/path"),
+    ("uri", "coap://%5Bx%5D/p"),
+    ("uri", "coap://%5B%3A%3A1%5D%40%5B%3A%3A2%5D/p"),
+    ("uri", "coap://%5Bfe80%3A%3A1%25eth0%5D/"),
+    ("opt", {"scheme": "coap", "dest": ["name", "r.example", None], "dport": None, "uri_host": "[::1]/a?b=]", "uri_port": None, "path": ["path"], "query": [], "flags": ["host-bracketed", "host-soup"]}),
+    ("opt", {"scheme": "coap", "dest": ["ipv4", 0x0A000001, None], "dport": None, "uri_host": "[]", "uri_port": 1, "path": [], "query": [], "flags": ["host-bracketed", "host-soup"]}),
+    ("uri", "coap://h/a/%2e%2e/b"),
+    ("uri", "coap://h/a/%2E/b"),
+    ("uri", "coap://h/secret/.%2E/.%2e/pub"),
+    ("uri", "coap://h/a/b/%2e%2E"),
+    ("uri", "coap://h/%2e%2e%2e/%2e%2ea/a%2e/%252e"),
+    ("junk", "[::1]junk"),
+    ("junk", "[::1]junk:5684"),
+    ("junk", "[::1]]"),
+    ("junk", "junk[::1]:5684"),
+    ("junk", "[fe80::1%eth0]x:1"),
+    ("arb", "coap://h/a\tb"),
+    ("arb", "coap://exa\nmple.com/x"),
+    ("arb", "co\tap://h/a"),
+    ("arb", "coap://h:56\n83/a"),
+    ("arb", "coap://h/%4\r\n1"),
+    ("arb", "coap://h/a?k=\tv"),
+    ("arb", " coap://h/a"),
+    ("arb", "\x00\x1fcoap://h/a"),
+    ("arb", "coap://h/a\x0bb c\x7f"),
+    ("arb", "coap://h/a%09b%20c"),
 ]
 
 
@@ -683,12 +855,68 @@ def host_needs_escape(uri_host):
 
 
 MECHANISM_KEYS = ("compose/host-reserved-char-not-escaped", "decompose/dot-segments-not-removed")
+MECHANISM_FAMILIES = ("compose/bracketed-non-literal-host/", "decompose/pct-encoded-dot-segment/", "accept/junk-around-ip-literal/", "accept/whitespace-or-control-dropped/")
 
 
 def pref(pre, key):
     """Keys found on text with raw non-ASCII characters (not URIs in the strict sense) are kept apart,
     except where the mechanism is one that has its own key anyway."""
-    return key if key in MECHANISM_KEYS else pre + key
+    return key if key in MECHANISM_KEYS or key.startswith(MECHANISM_FAMILIES) else pre + key
+
+
+def junk_shape(u):
+    """Structural class of an authority in which a bracketed part is not the whole host: text before it, text between
+    the closing bracket and the port / the end, or both. None if the authority has no such structure (an authority
+    with an unpaired bracket or a malformed port belongs to other classes)."""
+    a = authority_of(u)
+    if a is None:
+        return None
+    hp = a.rpartition("@")[2]
+    j = hp.find("]")
+    i = hp.rfind("[", 0, max(j, 0))
+    if i < 0 or j < 0:
+        return None
+    before, after = hp[:i], hp[j + 1 :]
+    if after.startswith(":") and "[" not in after and "]" not in after:
+        after = ""  # a port, well-formed or not
+    if before and after:
+        return "text-before-and-after-literal"
+    if before:
+        return "text-before-literal"
+    if after:
+        return "text-after-literal"
+    return None
+
+
+def locate(v, k):
+    """Where in the URI text v a character that stood before v[k] was: a label for the violation key."""
+    from harness import refuri as ref
+
+    if k <= 0:
+        return "leading"
+    if k >= len(v):
+        return "trailing"
+    if v[k - 1] == "%" or (k >= 2 and v[k - 2] == "%"):
+        return "inside-escape"
+    scheme, authority, path, query, fragment = ref.split_components(v)
+    pos = 0
+    if scheme is not None:
+        if k <= len(scheme):
+            return "scheme"
+        pos = len(scheme) + 1
+    if authority is not None:
+        if k < pos + 2:
+            return "authority-delimiter"
+        pos += 2
+        if k <= pos + len(authority):
+            _, port = ref.split_hostinfo_text(authority.rpartition("@")[2])
+            if port is not None and k >= pos + len(authority) - len(port):
+                return "port"
+            return "host"
+        pos += len(authority)
+    if k <= pos + len(path) and (path or query is None):
+        return "path"
+    return "query"
 
 
 def authority_of(u):
@@ -747,6 +975,12 @@ class Obs:
         return {k: getattr(self, k) for k in self.__slots__}
 
 
+class _NoStats:
+    @staticmethod
+    def count(*a, **k):
+        pass
+
+
 class Checker:
     def __init__(self, rep):
         import aiocoap
@@ -796,11 +1030,12 @@ class Checker:
         return (obs.scheme, kind, value, zone, port, obs.path, obs.query)
 
     # ---- (a) -------------------------------------------------------------------------------------------
-    def judge_decomposition(self, D, obs, iri_host=False):
-        """-> list of (component, detail) where the observed options differ from RFC 7252 6.4."""
+    def judge_decomposition(self, D, obs, iri_host=False, quiet=False):
+        """-> list of (component, detail) where the observed options differ from RFC 7252 6.4.
+        quiet: only the verdict is wanted (the same observation is being compared with several readings)."""
         from harness import refuri as ref
 
-        rep = self.rep
+        rep = self.rep if not quiet else _NoStats
         bad = []
         if obs.proxy is not None:
             bad.append(("proxy-uri-set", obs.proxy))
@@ -847,7 +1082,10 @@ class Checker:
         elif obs.uri_host is not None:
             bad.append(("uri-host-on-ip-literal", obs.uri_host))
         if obs.path != D.path:
-            if D.path != D.path_literal and obs.path == D.path_literal:
+            if D.escaped_dots and (obs.path == D.path_escaped_dots_kept or any(x in (".", "..") for x in obs.path)):
+                # "%2e%2E" became the Uri-Path value "..": RFC 7252 5.10.1 forbids the value, RFC 3986 2.3 / 6.2.2 say the segment is ".."
+                bad.append(("pct-encoded-dot-segment", (obs.path, D.path)))
+            elif D.path != D.path_literal and obs.path == D.path_literal:
                 bad.append(("dot-segments-not-removed", (obs.path, D.path)))
             else:
                 bad.append(("path", (obs.path, D.path)))
@@ -863,12 +1101,12 @@ class Checker:
 
         rep = self.rep
         D = ref.decompose(u, iri=iri)
-        if D.escaped_dots:
-            rep.count("escaped_dot_segment_not_judged")  # RFC 7252 6.4 step 2 vs 5.10.1: no defined outcome
-            return True
         if D.ambiguous_host:
-            rep.count("escaped_ipv4_lookalike_not_judged")  # "%31.2.3.4": reg-name by the grammar, address after normalisation
+            # "%31.2.3.4", "%5B%3A%3A1%5D": reg-name by the grammar, address after normalisation / for RFC 7252 6.5 step 3
+            rep.count("escaped_ip_literal_lookalike_not_judged" if D.uri_host.startswith("[") else "escaped_ipv4_lookalike_not_judged")
             return True
+        if D.escaped_dots:
+            rep.monitor("g2_escaped_dot_segment")
         iri_host = iri and any(ord(c) >= 0x80 for c in D.host.text)
         st, res = self.attempt(u)
         outcome = st
@@ -884,10 +1122,13 @@ class Checker:
                 rep.count("iri_rejected")
             elif D.host.kind == "ipvfuture":
                 rep.count("ipvfuture_rejected_with_url_error")  # not a destination this library can address: accepted outcome
-            elif D.path_literal is None:
+            elif D.path_literal is None and D.path_escaped_dots_kept is not None:
                 # the segment it stumbles over is one that reference resolution (6.4 step 2) removes
                 rep.violation("decompose/dot-segments-not-removed", "a valid CoAP URI is rejected because of a path segment that dot-segment removal drops", dict(wit, exc=repr(res)), case)
                 violated = True
+            elif D.escaped_dots:
+                # RFC 7252 6.4 read letter by letter ends in option values that 5.10.1 forbids: refusing such text is tolerated
+                rep.count("escaped_dot_segment_rejected_with_url_error")
             elif D.host.zone is not None and "%" in D.host.text.partition("%25")[2]:
                 rep.count("zone_with_escaped_characters_rejected")  # RFC 6874 allows pct-encoded in a ZoneID; no platform has such zones
             else:
@@ -902,6 +1143,15 @@ class Checker:
                 rep.count("ipvfuture_accepted")
             for comp, detail in bad:
                 violated = True
+                if comp == "pct-encoded-dot-segment":
+                    if any(x in (".", "..") for x in obs.path):
+                        sub, extra = self.dot_value_roundtrip(u, m, obs)
+                        what = "a percent-encoded dot segment (RFC 3986 2.3 / 6.2.2.2: equivalent to the literal one, removed by 6.2.2.3) is turned into a Uri-Path value '.' / '..' (forbidden by RFC 7252 5.10.1)" + ("; composing the options back and decomposing again gives another path" if sub == "round-trip-changes-path" else "")
+                    else:
+                        sub, extra = "treated-as-named-segment", {}
+                        what = "a percent-encoded dot segment is treated as a named segment (a following '..' removes it instead of its parent): the URI decomposes to another path than the equivalent URI (RFC 3986 2.3) with literal dots"
+                    rep.violation("decompose/pct-encoded-dot-segment/" + sub, what, dict(wit, observed=obs.as_dict(), detail=repr(detail), **extra), case)
+                    continue
                 rep.violation(pref("iri/" if iri else "", "decompose/" + comp), "Message(uri=...) does not decompose as RFC 7252 section 6.4 says (%s)" % comp, dict(wit, observed=obs.as_dict(), detail=repr(detail)), case)
             if not violated:
                 violated = self.recompose(u, D, m, obs, case, wit, iri, iri_host)
@@ -917,6 +1167,30 @@ class Checker:
         rep.seen("host_kinds", D.host.kind)
         return not violated
 
+    def dot_value_roundtrip(self, u, m, obs):
+        """What becomes of Uri-Path values '.' / '..' when the options are composed and the result is decomposed again
+        (only to name the symptom; where the host of the URI has a composing problem of its own, the same path is
+        probed behind a plain host)."""
+        from harness import refuri as ref
+
+        if host_needs_escape(obs.uri_host):
+            try:
+                m = self.from_uri("coap://h" + ref.split_components(u)[2])
+                obs = Obs(m)
+            except Exception as e:
+                return "dot-value-as-uri-path", {"probe_exc": repr(e)}
+        try:
+            u2 = m.get_request_uri()
+        except Exception as e:
+            return "compose-raises", {"exc": repr(e)}
+        st, res = self.attempt(u2)
+        if st != "ok":
+            return "composed-uri-not-accepted", {"composed": u2, "exc": repr(res)}
+        obs2 = Obs(res)
+        if obs2.path != obs.path:
+            return "round-trip-changes-path", {"composed": u2, "redecomposed_path": obs2.path}
+        return "dot-value-as-uri-path", {"composed": u2}
+
     # ---- (b) -------------------------------------------------------------------------------------------
     def recompose(self, u, D, m, obs, case, wit, iri, iri_host):
         from harness import refuri as ref
@@ -924,16 +1198,22 @@ class Checker:
         rep = self.rep
         pre = "iri/" if iri else ""
         reserved = host_needs_escape(obs.uri_host)
+        bracketed = ref.bracketed_non_literal(obs.uri_host)
+        if bracketed:
+            rep.monitor("g1_bracketed_host_uri")
 
-        def K(key):
-            # whatever goes wrong downstream of a Uri-Host that is composed without escaping is that mechanism
+        def K(key, sym):
+            # whatever goes wrong downstream of a Uri-Host that is composed without escaping is that mechanism; a value
+            # that is taken for an IP literal because it begins and ends with brackets is a mechanism of its own
+            if bracketed:
+                return "compose/bracketed-non-literal-host/" + sym
             return "compose/host-reserved-char-not-escaped" if reserved else pref(pre, key)
 
         try:
             u2 = m.get_request_uri()
         except Exception as e:
             rep.monitor("b_recomposed_ref")
-            rep.violation(K("compose/raises/" + type(e).__name__), "get_request_uri() raised %r on a message built from a valid URI" % e, dict(wit, tb=rep.exception_witness(e)), case)
+            rep.violation(K("compose/raises/" + type(e).__name__, "raises"), "get_request_uri() raised %r on a message built from a valid URI" % e, dict(wit, tb=rep.exception_witness(e)), case)
             return True
         wit = dict(wit, composed=u2)
         violated = False
@@ -942,7 +1222,7 @@ class Checker:
         st2 = ref.classify(u2)
         if st2[0] != "ok":
             violated = True
-            rep.violation(K("compose/not-a-valid-coap-uri/" + st2[1]), "get_request_uri() produced text that is not a valid CoAP URI (%s: %s)" % st2, wit, case)
+            rep.violation(K("compose/not-a-valid-coap-uri/" + st2[1], "not-a-uri"), "get_request_uri() produced text that is not a valid CoAP URI (%s: %s)" % st2, wit, case)
         else:
             D2 = st2[1]
             rep.monitor("b_equivalent")
@@ -953,19 +1233,21 @@ class Checker:
                 violated = True
                 names = ["scheme", "host", "host", "host", "port", "path", "query"] if not iri_host else ["scheme", "port", "path", "query"]
                 comps = sorted({names[i] for i in range(len(k1)) if k1[i] != k2[i]})
-                rep.violation(K("roundtrip/" + "+".join(comps) + "-not-equivalent"), "the composed URI is not equivalent to the input (differs in %s): a different resource" % ", ".join(comps), dict(wit, input_key=repr(k1), composed_key=repr(k2)), case)
+                rep.violation(K("roundtrip/" + "+".join(comps) + "-not-equivalent", "names-another-resource"), "the composed URI is not equivalent to the input (differs in %s): a different resource" % ", ".join(comps), dict(wit, input_key=repr(k1), composed_key=repr(k2)), case)
             else:
                 nf = ref.normal_form_defects(u2)
                 for aspect in nf:
                     violated = True
-                    rep.violation(K("compose/not-normalised/" + aspect), "the composed URI is not in normal form (%s)" % aspect, wit, case)
+                    rep.violation(K("compose/not-normalised/" + aspect, "not-normalised"), "the composed URI is not in normal form (%s)" % aspect, wit, case)
         # by aiocoap itself
         rep.monitor("b_recomposed_self")
         st, res = self.attempt(u2)
+        if bracketed and violated:
+            rep.count("bracketed_host_composed_uri_" + ("names_other_options" if st == "ok" else "rejected_by_the_library"))
         if st != "ok":
             if not violated:
                 violated = True
-                key = K("roundtrip/composed-uri-not-accepted") if st == "urlerr" or reserved else escape_key(u2, res)
+                key = K("roundtrip/composed-uri-not-accepted", "composed-uri-not-accepted") if st == "urlerr" or reserved or bracketed else escape_key(u2, res)
                 rep.violation(key, "the library does not accept the URI it composed (%s)" % type(res).__name__, dict(wit, exc=repr(res)), case)
             return violated
         obs2 = Obs(res)
@@ -974,13 +1256,13 @@ class Checker:
         except (ref.NotAUri, ref.Reject) as e:
             if not violated:
                 violated = True
-                rep.violation(K("roundtrip/remote-hostinfo"), "remote.hostinfo of the re-decomposed message is not host[:port] (%r)" % e, dict(wit, second=obs2.as_dict()), case)
+                rep.violation(K("roundtrip/remote-hostinfo", "decomposes-differently"), "remote.hostinfo of the re-decomposed message is not host[:port] (%r)" % e, dict(wit, second=obs2.as_dict()), case)
             return violated
         if (e1 != e2 or obs.uri_host != obs2.uri_host) and not violated:
             violated = True
             names = ["scheme", "host", "host", "host", "port", "path", "query"]
             comps = sorted({names[i] for i in range(len(e1)) if e1[i] != e2[i]} | ({"uri_host"} if obs.uri_host != obs2.uri_host else set()))
-            rep.violation(K("roundtrip-self/" + "+".join(comps)), "decomposing the composed URI gives different options (%s)" % ", ".join(comps), dict(wit, first=obs.as_dict(), second=obs2.as_dict()), case)
+            rep.violation(K("roundtrip-self/" + "+".join(comps), "decomposes-differently"), "decomposing the composed URI gives different options (%s)" % ", ".join(comps), dict(wit, first=obs.as_dict(), second=obs2.as_dict()), case)
         if not violated:
             try:
                 u3 = res.get_request_uri()
@@ -988,7 +1270,7 @@ class Checker:
                 u3 = "raised %r" % e
             if u3 != u2:
                 violated = True
-                rep.violation(K("roundtrip/not-a-fixed-point"), "composing the re-decomposed options gives yet another URI", dict(wit, third=u3), case)
+                rep.violation(K("roundtrip/not-a-fixed-point", "not-a-fixed-point"), "composing the re-decomposed options gives yet another URI", dict(wit, third=u3), case)
         return violated
 
     # ---- (c) -------------------------------------------------------------------------------------------
@@ -1003,7 +1285,11 @@ class Checker:
         m.opt.uri_query = list(o["query"])
         return m
 
-    def refine(self, o, comps, default):
+    def refine(self, o, comps, default, sym=None):
+        from harness import refuri as ref
+
+        if sym is not None and ref.bracketed_non_literal(o["uri_host"]):
+            return "compose/bracketed-non-literal-host/" + sym
         if host_needs_escape(o["uri_host"]):
             return "compose/host-reserved-char-not-escaped"
         if o["uri_port"] == 0 and comps == {"port"}:
@@ -1017,7 +1303,7 @@ class Checker:
             m = self.build(o)
             return m, m.get_request_uri()
         except Exception as e:
-            key = self.refine(o, set(), "compose/raises/" + type(e).__name__)
+            key = self.refine(o, set(), "compose/raises/" + type(e).__name__, "raises")
             rep.violation(key, "get_request_uri() raised %r for an option set" % e, {"options": o, "tb": rep.exception_witness(e)}, case)
             return None, None
 
@@ -1033,6 +1319,8 @@ class Checker:
         m, u = self.compose_optset(o, case)
         outcome = "ok"
         rep.monitor("c_options_roundtrip")
+        if ref.bracketed_non_literal(o["uri_host"]):
+            rep.monitor("g1_bracketed_host_options")
         if u is None:
             outcome = "violated"
         else:
@@ -1041,16 +1329,16 @@ class Checker:
             st = ref.classify(u)
             bad = None
             if st[0] != "ok":
-                bad = (self.refine(o, set(), "compose/not-a-valid-coap-uri/" + st[1]), "options compose to text that is not a valid CoAP URI (%s: %s)" % st, {})
+                bad = (self.refine(o, set(), "compose/not-a-valid-coap-uri/" + st[1], "not-a-uri"), "options compose to text that is not a valid CoAP URI (%s: %s)" % st, {})
             else:
                 k = ref.resource_key(st[1])
                 if k != E:
                     comps = {names[i] for i in range(len(E)) if E[i] != k[i]}
-                    bad = (self.refine(o, comps, "options-roundtrip/" + "+".join(sorted(comps))), "the composed URI decomposes (RFC 7252 6.4) to a different %s: another resource" % ", ".join(sorted(comps)), {"decomposed": repr(k)})
+                    bad = (self.refine(o, comps, "options-roundtrip/" + "+".join(sorted(comps)), "names-another-resource"), "the composed URI decomposes (RFC 7252 6.4) to a different %s: another resource" % ", ".join(sorted(comps)), {"decomposed": repr(k)})
             if bad is None:
                 st2, res = self.attempt(u)
                 if st2 != "ok":
-                    bad = (self.refine(o, set(), "options-roundtrip/composed-uri-not-accepted"), "set_request_uri does not accept the composed URI (%s)" % type(res).__name__, {"exc": repr(res)})
+                    bad = (self.refine(o, set(), "options-roundtrip/composed-uri-not-accepted", "composed-uri-not-accepted"), "set_request_uri does not accept the composed URI (%s)" % type(res).__name__, {"exc": repr(res)})
                 else:
                     obs2 = Obs(res)
                     try:
@@ -1059,7 +1347,7 @@ class Checker:
                         e2 = ("unparsable remote %r" % (obs2.hostinfo,),) * 7
                     if e2 != E:
                         comps = {names[i] for i in range(len(E)) if E[i] != e2[i]}
-                        bad = (self.refine(o, comps, "options-roundtrip-self/" + "+".join(sorted(comps))), "set_request_uri(get_request_uri()) gives different options (%s)" % ", ".join(sorted(comps)), {"second": obs2.as_dict()})
+                        bad = (self.refine(o, comps, "options-roundtrip-self/" + "+".join(sorted(comps)), "decomposes-differently"), "set_request_uri(get_request_uri()) gives different options (%s)" % ", ".join(sorted(comps)), {"second": obs2.as_dict()})
             if bad is not None:
                 outcome = "violated"
                 rep.violation(bad[0], bad[1], dict(wit, **bad[2]), case)
@@ -1068,7 +1356,7 @@ class Checker:
             prev = self.composed.get(u)
             if prev is not None and prev[0] != E and outcome == "ok":
                 outcome = "violated"
-                rep.violation(self.refine(o, set(), "collapse/shard-wide"), "two different option sets compose to the same URI", dict(wit, other=repr(prev[0])), ["optpair", prev[1], case[1]] if case[0] == "opt" else case)
+                rep.violation(self.refine(o, set(), "collapse/shard-wide", "collapse"), "two different option sets compose to the same URI", dict(wit, other=repr(prev[0])), ["optpair", prev[1], case[1]] if case[0] == "opt" else case)
             elif prev is None and case[0] == "opt" and outcome == "ok" and len(self.composed) < 60000:
                 # (a set that does not round-trip has been reported under its own key; it would only pollute this map)
                 self.composed[u] = (E, case[1])
@@ -1081,7 +1369,7 @@ class Checker:
                     _, ut = self.compose_optset(t, case)
                     if ut is not None and ut == u:
                         outcome = "violated"
-                        rep.violation(self.refine(o, {"port"} if mv == "drop-port" else set(), self.refine(t, set(), "collapse/" + mv)), "two different option sets (related by %s) compose to the same URI" % mv, dict(wit, twin=t), case)
+                        rep.violation(self.refine(o, {"port"} if mv == "drop-port" else set(), self.refine(t, set(), "collapse/" + mv, "collapse"), "collapse"), "two different option sets (related by %s) compose to the same URI" % mv, dict(wit, twin=t), case)
                     rep.count("twin_" + mv)
         sig = (kind, o["scheme"], o["dest"][0], o["dport"] is None, o["uri_host"] is not None, tuple(o["flags"]), o["uri_port"] is None, min(len(o["path"]), 4), textsig("".join(o["path"])) + ("e" if "" in o["path"] else ""), min(len(o["query"]), 3), textsig("".join(o["query"])) + ("e" if "" in o["query"] else ""), outcome)
         rep.case(sig, nontrivial=bool(o["path"] or o["query"] or o["uri_host"] or o["uri_port"] is not None))
@@ -1124,6 +1412,12 @@ class Checker:
         st, res = self.attempt(u)
         rep.monitor("d_totality")
         detail = ""
+        shape = junk_shape(u) if refst[0] == "notauri" else None
+        wspos = ref.raw_nonuri_positions(u) if refst[0] == "notauri" else []
+        if shape is not None:
+            rep.monitor("g3_junk_around_literal_uri")
+        if wspos:
+            rep.monitor("g3_control_or_space_uri")
         if st == "escape":
             rep.violation(escape_key(u, res), "set_request_uri let %s escape for arbitrary text" % type(res).__name__, {"text": u, "exc": repr(res), "tb": rep.exception_witness(res)}, case)
         elif st == "ok":
@@ -1153,10 +1447,126 @@ class Checker:
                     lenient_valid = False
                 if lenient_valid:
                     return self.valid_uri(u, case, "arb-iri", iri=True)
-                detail = "lenient"
-                rep.count("arbitrary_accepted_leniently")
-        rep.case(("arb", kind, st, refst[0], refst[1] if isinstance(refst[1], str) else "", detail), nontrivial=True)
+                if (wspos and self.judge_control_or_space(u, obs, case)) or (shape is not None and self.judge_junk_around_literal(u, shape, obs, case)):
+                    detail = "dropped"
+                else:
+                    detail = "lenient"
+                    rep.count("arbitrary_accepted_leniently")
+        rep.case(("arb", kind, st, refst[0], refst[1] if isinstance(refst[1], str) else "", detail, shape or "", self.ws_signature(u, wspos)), nontrivial=True)
         rep.count("arbitrary_" + st)
+
+    @staticmethod
+    def ws_signature(u, wspos):
+        if not wspos:
+            return ""
+        kinds = sorted({"tcl" if u[i] in "\t\r\n" else ("sp" if u[i] == " " else ("del" if u[i] == "\x7f" else "c0")) for i in wspos})
+        return "+".join(kinds) + ("@lead" if wspos[0] == 0 else "") + ("@trail" if wspos[-1] == len(u) - 1 else "")
+
+    def judge_junk_around_literal(self, u, shape, obs, case):
+        """The text has an authority in which a bracketed part is not the whole host (RFC 3986 3.2.2: no such authority),
+        and it was accepted. Tolerable only if all of the text is still there (kept as host data); reported if the text
+        around the literal has vanished. -> True if reported."""
+        rep = self.rep
+        if obs.proxy is not None:
+            return False  # stored verbatim as Proxy-Uri: nothing of the text is lost
+        if obs.uri_host is not None and ("[" in obs.uri_host or "]" in obs.uri_host):
+            rep.count("brackets_kept_as_host_data")
+            return False
+        rep.violation("accept/junk-around-ip-literal/uri/" + shape, "an authority with text around a bracketed IP literal (no host[:port] by RFC 3986 3.2.2) is accepted and the extra text silently dropped", {"uri": u, "authority": authority_of(u), "observed": obs.as_dict()}, case)
+        return True
+
+    def judge_control_or_space(self, u, obs, case):
+        """The text contains raw C0 control / SPACE / DEL characters (not URI characters: the text is no URI and should
+        have been rejected) and was accepted. Tolerated (as for other excluded characters) if the result is what the text
+        says when these characters are data, i.e. what the same text with them percent-encoded decomposes to. Reported if
+        the result is what the text *without* them (without TAB / CR / LF and the leading ones; without these and the
+        trailing ones; without all of them) decomposes to: they were silently dropped. Anything else stays what it was
+        before this oracle existed, a counted lenient acceptance. -> True if reported."""
+        from harness import refuri as ref
+
+        rep = self.rep
+        if obs.proxy is not None:
+            return False  # stored verbatim as Proxy-Uri
+
+        def matches(text):
+            try:
+                D = ref.decompose(text, iri=True)
+            except (ref.NotAUri, ref.Reject):
+                return False
+            if D.ambiguous_host:
+                return False
+            return not self.judge_decomposition(D, obs, any(ord(c) >= 0x80 for c in D.host.text), quiet=True)
+
+        if matches(ref.nonuri_as_data(u)):
+            rep.count("control_or_space_kept_as_data")
+            return False
+        tcl = "\t\r\n"
+        lead = len(u) - len(u.lstrip(ref.NONURI_CHARS))
+        trail = len(u.rstrip(ref.NONURI_CHARS))
+        variants = [
+            [i for i, c in enumerate(u) if c in tcl or (c in ref.NONURI_CHARS and i < lead)],
+            [i for i, c in enumerate(u) if c in tcl or (c in ref.NONURI_CHARS and (i < lead or i >= trail))],
+            [i for i, c in enumerate(u) if c in ref.NONURI_CHARS],
+        ]
+        seen = []
+        for dropped in variants:
+            if not dropped or dropped in seen:
+                continue
+            seen.append(dropped)
+            ds = set(dropped)
+            v = "".join(c for i, c in enumerate(u) if i not in ds)
+            if matches(ref.nonuri_as_data(v)):  # (what is not dropped may have been kept as data)
+                # ... which shows that they were dropped only if the place they stood at matters for the result: a path
+                # segment that dot-segment removal discards could hold anything (incomplete escapes are tolerated)
+                where = None
+                for n, i in enumerate(dropped):
+                    k = i - n
+                    a = max((x for x in range(k) if v[x] in "/?&#"), default=-1)
+                    b = min((x for x in range(k, len(v)) if v[x] in "/?&#"), default=len(v))
+                    if not matches(ref.nonuri_as_data(v[: a + 1] + "q" + v[b:])):
+                        where = locate(v, k)
+                        break
+                if where is None:
+                    continue
+                rep.violation("accept/whitespace-or-control-dropped/" + where, "text with raw control / space characters (not URI characters: RFC 3986 2, Appendix A) is accepted and decomposed as if they were not there", {"text": u, "dropped": [repr(u[i]) for i in dropped], "same_as": v, "observed": obs.as_dict()}, case)
+                return True
+        rep.count("control_or_space_accepted_undecided")
+        return False
+
+    def junk_hostport(self, hp, case):
+        """(e) for a string that is not host[:port]: text around a bracketed literal. hostportsplit either refuses it
+        (ValueError) or splits it such that joining gives the string back; it does not silently lose part of it."""
+        from harness import refuri as ref
+
+        rep = self.rep
+        if ref.hostinfo_wellformed(hp):
+            rep.inconc("generator defect: %r is a well-formed host[:port]" % hp)
+            return
+        shape = junk_shape("//" + hp)
+        if shape is None:
+            rep.count("junk_hostport_without_text_around_brackets_not_judged")  # "[h.example]", "[]:1": brackets around something else
+            return
+        rep.monitor("g3_junk_around_literal_hostportsplit")
+        outcome = "split"
+        try:
+            h, p = self.hostportsplit(hp)
+        except ValueError:
+            rep.count("junk_hostport_refused")
+            outcome = "refused"
+        except Exception as e:
+            outcome = "raises"
+            rep.violation("hostport/raises/" + type(e).__name__, "hostportsplit raised %r for text around a bracketed literal" % e, {"hostport": hp, "tb": rep.exception_witness(e)}, case)
+        else:
+            try:
+                again = self.hostportjoin(h, p)
+            except Exception as e:
+                again = "raised %r" % e
+            if ref.ascii_lower(again) == ref.ascii_lower(hp):
+                rep.count("junk_hostport_split_consistently")
+            else:
+                outcome = "lossy"
+                rep.violation("accept/junk-around-ip-literal/hostportsplit/" + shape, "hostportsplit accepts a string that is not host[:port] and silently drops the text around the bracketed literal", {"hostport": hp, "split": [h, p], "joined_again": again}, case)
+        rep.case(("junk-hp", shape, "%" in hp, "@" in hp, outcome), nontrivial=True)
 
     # ---- (e) -------------------------------------------------------------------------------------------
     def hostport(self, kind, h, p, case):
@@ -1239,6 +1649,13 @@ class Checker:
         elif cls == "hp":
             kind, h, p = gen_hostport(r)
             self.hostport(kind, h, p, case)
+        elif cls == "junk":
+            hp, u = gen_junk_uri(r)
+            self.arbitrary("junk", u, case)
+            self.junk_hostport(hp.rpartition("@")[2], case)
+        elif cls == "ws":
+            base, u = gen_ws_uri(r)
+            self.arbitrary("ws", u, case)
         else:
             raise AssertionError(cls)
 
@@ -1258,6 +1675,9 @@ class Checker:
             self.optset(f[1], case, None, kind="fixed-opt")
         elif f[0] == "hp":
             self.hostport("fixed", f[1], f[2], case)
+        elif f[0] == "junk":
+            self.arbitrary("fixed", "coap://" + f[1] + "/p", case)
+            self.junk_hostport(f[1], case)
 
 
 def run_shard(shard, rep, only=None):
@@ -1276,6 +1696,6 @@ def run_shard(shard, rep, only=None):
     for k in range(len(FIXED)):
         if k % shard["of"] == shard["index"]:
             ck.run_case(seed, "fixed", k)
-    for cls in ("uri", "opt", "bad", "arb", "hp"):
+    for cls in ("uri", "opt", "bad", "arb", "hp", "junk", "ws"):
         for i in range(shard["n"][cls]):
             ck.run_case(seed, cls, i)
